@@ -11,11 +11,13 @@
 -/
 import PsutilModel.Proofs.C13Misc
 import PsutilModel.Proofs.C13Full
+import PsutilModel.Proofs.C13Regex
+import PsutilModel.Proofs.C13Rollup
 import PsutilModel.Proofs.C13Inherit
 import PsutilModel.Proofs.C13Pct
 import PsutilModel.Model.C13Gen
 namespace Psutil.C13
-open Psutil Psutil.C13.Spec
+open Psutil Psutil.C13.Spec Psutil.C13.Re
 
 /-! ## translator-fed obligations -/
 
@@ -35,6 +37,17 @@ theorem field_facts :
     Gen.C13.pmmapExtFields = extNames ∧ Gen.C13.pmmapGroupedFields = groupedNames
       ∧ Gen.C13.groupPathIdx = 2 ∧ Gen.C13.groupNumsFrom = 3 ∧ Gen.C13.mapsMaxsplit = 5
       ∧ Gen.C13.fallbackExcs = ["FileNotFoundError", "ProcessLookupError"] := by decide
+
+/-- decorators of the methods the property is anchored in: `_parse_smaps_rollup` is the only
+    undecorated one (its ESRCH / ENOENT must reach `memory_full_info`'s `except` clause), the
+    block-cached reads are `_read_smaps_file` and the front-end `memory_info` -/
+theorem decorator_facts :
+    Gen.C13.methodDecorators =
+      [("memory_info", ["wrap_exceptions"]), ("_parse_smaps_rollup", []), ("_parse_smaps", ["wrap_exceptions"]),
+       ("memory_full_info", ["wrap_exceptions"]), ("memory_maps", ["wrap_exceptions"]),
+       ("_read_smaps_file", ["wrap_exceptions", "memoize_when_activated"]),
+       ("Process.memory_info", ["memoize_when_activated"]), ("Process.memory_full_info", []),
+       ("Process.memory_maps", []), ("Process.memory_percent", [])] := by decide
 
 /-! ## memory_info -/
 
@@ -147,7 +160,20 @@ theorem C13_bad_memtype_ValueError (memtype : String) (info full : Res (List Nat
 theorem C13_rollup_fallback (pagesize : Nat) (smaps statm : Bytes) (r : FileRes) :
     memoryFullInfo cfg true pagesize .enoent smaps statm = memoryFullInfo cfg false pagesize r smaps statm
     ∧ memoryFullInfo cfg true pagesize .esrch smaps statm = memoryFullInfo cfg false pagesize r smaps statm := by
-  constructor <;> simp [memoryFullInfo]
+  constructor <;> simp [memoryFullInfo, cfg_good.rollupWrapped]
+
+/-- what-if: a `_parse_smaps_rollup` decorated with `@wrap_exceptions` (the other helpers are) -/
+def wrappedCfg : Cfg := { cfg with rollupWrapped := true }
+
+/-- … then ESRCH on the roll-up never reaches the fall-back: NoSuchProcess for a live process
+    with a perfectly readable smaps — the full statement `C13_rollup_fallback` is false for that
+    code (the obligation `cfg_good.rollupWrapped` is what keeps it out). -/
+theorem C13_rollup_wrapped_counterexample :
+    (∀ (pagesize : Nat) (smaps statm : Bytes),
+        memoryFullInfo wrappedCfg true pagesize .esrch smaps statm = .error .noSuchProcess)
+      ∧ (memoryFullInfo wrappedCfg false 4096 .esrch [] [49, 32, 49, 32, 48, 32, 48, 32, 48, 32, 48, 32, 48, 10]).toOption
+          = some [4096, 4096, 0, 0, 0, 0, 0, 0, 0, 0] := by
+  refine ⟨fun _ _ _ => rfl, by decide⟩
 
 /-- **C13_full_info_sums.** From the per-mapping listing: uss = 1024·Σ(Private_Clean +
     Private_Dirty + Private_Hugetlb), pss = 1024·Σ Pss, swap = 1024·Σ Swap, over all mappings;
@@ -161,14 +187,89 @@ theorem C13_full_info_sums (pagesize : Nat) (st : Statm) (ms : List Mapping) (ro
 /-- **C13_rollup_agrees.** The roll-up file (field-wise sums of the kB keys) gives the same
     three figures as the per-mapping listing. -/
 theorem C13_rollup_agrees (ms : List Mapping) (hne : ms ≠ []) (hwf : wfSmaps false ms = true) :
-    parseSmapsRollup cfg (renderRollup (rollupKeysOf ms) ms) = .ok (parseSmaps cfg (renderSmaps ms))
-      ∧ parseSmaps cfg (renderSmaps ms) = specFull ms := by
+    parseSmapsRollup cfg (renderRollup (rollupKeysOf ms) ms) = parseSmaps cfg (renderSmaps ms)
+      ∧ parseSmaps cfg (renderSmaps ms) = .ok (specFull ms) := by
   refine ⟨rollup_agrees cfg cfg_good ms hne hwf, ?_⟩
   cases ms with
   | nil => exact absurd rfl hne
   | cons m ms' =>
     obtain ⟨hK, hnd, hw⟩ := wfSmaps_spec hwf
     exact parseSmaps_rendered cfg cfg_good _ hK hnd m ms' hw
+
+/-! ## the roll-up file as a record of its own ("every smaps_rollup content") -/
+
+/-- **C13_rollup_record.** For EVERY roll-up content — the pseudo header and ANY list of key lines
+    (labels without blanks / colons, each printed once; also keys the per-mapping listing does
+    not have: `Pss_Anon`, `Pss_File`, `Pss_Shmem`, `SwapPss`, …; any values) —
+    `_parse_smaps_rollup` returns uss = 1024·Σ(the `Private_*` lines), pss = 1024·(the `Pss`
+    line), swap = 1024·(the `Swap` line); a line that is absent counts 0. -/
+theorem C13_rollup_record (lo hi : Nat) (kvs : List KV) (hw : wfRollupRec kvs = true) :
+    parseSmapsRollup cfg (renderRollupRec lo hi kvs) = .ok (specFullRollup kvs) :=
+  rollup_record cfg cfg_good lo hi kvs hw
+
+/-- **C13_full_info_from_rollup.** … and `memory_full_info()` is the basic fields followed by
+    these three, whatever the per-mapping listing holds (it is not read). -/
+theorem C13_full_info_from_rollup (pagesize : Nat) (st : Statm) (lo hi : Nat) (kvs : List KV)
+    (hw : wfRollupRec kvs = true) (smaps : Bytes) :
+    memoryFullInfo cfg true pagesize (.data (renderRollupRec lo hi kvs)) smaps (renderStatm st)
+      = .ok (specMemInfo pagesize st
+          ++ [(specFullRollup kvs).uss, (specFullRollup kvs).pss, (specFullRollup kvs).swap]) := by
+  unfold memoryFullInfo
+  simp only [if_true]
+  rw [C13_rollup_record lo hi kvs hw, (C13_statm pagesize st).1]
+
+/-- **C13_rollup_subkb_bound.** CHARACTERISATION of the kernel side (beyond the statement's "the
+    same whichever source"): the kernel accumulates PSS with sub-kB precision (`fine`: per-mapping
+    PSS in units of 2⁻¹² byte), prints every mapping's `Pss:` truncated to kB and the roll-up's
+    `Pss:` truncated once. So the roll-up's figure is never below the sum of the per-mapping
+    figures and exceeds it by less than one kB per mapping — "reports higher PSS than */smaps",
+    as the comment in `_parse_smaps_rollup` observes. psutil reports either file faithfully
+    (`C13_rollup_record`, `C13_full_info_sums`); they coincide when the roll-up is the field-wise
+    sum (`C13_rollup_agrees`). -/
+theorem C13_rollup_subkb_bound (fine : List Nat) :
+    pssListed fine ≤ pssRolled fine ∧ pssRolled fine ≤ pssListed fine + (fine.length - 1) :=
+  ⟨pss_listed_le_rolled fine, pss_rolled_lt fine⟩
+
+example : pssListed [pssUnit + 1, 2 * pssUnit - 1, pssUnit / 2] = 2 ∧ pssRolled [pssUnit + 1, 2 * pssUnit - 1, pssUnit / 2] = 3 := by
+  decide
+
+/-! ## the three regexes of `_parse_smaps`: `findall` over the whole text vs the line-anchored reading -/
+
+/-- **C13_findall_is_line_anchored.** For ANY text and any pattern `\n q` of the modelled fragment:
+    if on every line after the first the match of `q` does not depend on what follows the line
+    (`LineAgree`: it fails, or ends inside the line with the number the line-anchored extractor
+    `f` reports), then `sum(map(int, findall))` is the sum of `f` over those lines. -/
+theorem C13_findall_is_line_anchored (q : List Atom) (f : Bytes → Option Nat) (data : Bytes)
+    (hag : ∀ l ∈ (splitOn 10 data).drop 1, LineAgree q f l) :
+    sumInts (findall (.lit 10 :: q) data) = some (sumMatches f ((splitOn 10 data).drop 1)) :=
+  findall_eq_lines q f data hag
+
+/-- **C13_regex_line_anchored.** On EVERY rendered smaps file (any number of well-formed mappings,
+    any names — also names like `/tmp/Pss: 7` or `Private_Clean: 5` —, optional lines, any values)
+    `_parse_smaps` as written — three `re.findall` over the whole text, whose `\s+` could run over
+    a newline — returns exactly the line-anchored reading of its patterns. -/
+theorem C13_regex_line_anchored (ms : List Mapping) (hne : ms ≠ []) (hwf : wfSmaps false ms = true) :
+    parseSmaps cfg (renderSmaps ms) = .ok (parseSmapsLines cfg (renderSmaps ms)) := by
+  cases ms with
+  | nil => exact absurd rfl hne
+  | cons m ms' =>
+    obtain ⟨hK, _, hw⟩ := wfSmaps_spec hwf
+    exact parseSmaps_eq_lines cfg cfg_good _ hK m ms' hw
+
+/-- `1-2 r 0 0:0 0 \nSwap:\n00400000-00401000 r 0 0:0 0 \nPss: 1 kB`: a bare `Swap:` line followed
+    by a header whose address starts with decimal digits -/
+def bareSwap : Bytes :=
+  [49, 45, 50, 32, 114, 32, 48, 32, 48, 58, 48, 32, 48, 32, 10, 83, 119, 97, 112, 58, 10, 48, 48, 52, 48, 48, 48, 48, 48, 45, 48, 48,
+   52, 48, 49, 48, 48, 48, 32, 114, 32, 48, 32, 48, 58, 48, 32, 48, 32, 10, 80, 115, 115, 58, 32, 49, 32, 107, 66, 10]
+
+/-- **C13_regex_crosses_newline.** Off the kernel's format the two readings differ: after a bare
+    `Swap:` line the `\s+` of the regex runs over the newline and captures the leading digits of
+    the next header's address (swap = 400000 kB), the line-anchored reading says 0. No kernel
+    prints a key line without a number; replayed on the real code by the raw family
+    `bare_key_before_header`. -/
+theorem C13_regex_crosses_newline :
+    (parseSmaps cfg bareSwap).toOption = some ⟨0, 1024, 400000 * 1024⟩ ∧ parseSmapsLines cfg bareSwap = ⟨0, 1024, 0⟩ := by
+  constructor <;> decide
 
 /-! ## non-vacuity, and the two places where the code's behaviour matters -/
 
